@@ -501,7 +501,9 @@ def tr_loop(tree, D):
     env = Env(ints={a: "A", bb: "B"}, meshes=[M])
     edge_cut_body(lp.body, env, new, M, half, "loop", D, extra_edges=False)
     t, v = single_assign(body[4])
-    expect(isinstance(t, ast.Name) and isinstance(v, ast.Call) and T.dotted(v.func) == "set" and not v.args, body[4],
+    # the refined edges are collected without repetition: a set, or a dict used as an insertion-ordered set (the model
+    # compares this edge list as a set, so both spellings mean the same)
+    expect(isinstance(t, ast.Name) and isinstance(v, ast.Call) and T.dotted(v.func) in ("set", "dict") and not v.args, body[4],
            "expected `new_edges = set()`")
     eset = t.id
     lp = body[5]
@@ -513,7 +515,7 @@ def tr_loop(tree, D):
     expect(c is not None and T.dotted(c.args[0]) == var, lp.body[4], "expected `newMeshData.faces.append(new_tri)`")
     D["loop_tris"] = ("(A B C mAB mBC mCA : Z) : list (list Z)", "[" + "; ".join(zlist(x, e) for x in elts) + "]")
     elts, bd, var = literal_loop(lp.body[5], e, "new_edge")
-    c = is_method_call(bd[0], eset + ".add", 1) if len(bd) == 1 else None
+    c = (is_method_call(bd[0], eset + ".add", 1) or is_method_call(bd[0], eset + ".setdefault", 1)) if len(bd) == 1 else None
     expect(c is not None and isinstance(c.args[0], ast.Call) and T.dotted(c.args[0].func) == "keyify"
            and len(c.args[0].args) == 1 and T.dotted(c.args[0].args[0]) == var, lp.body[5],
            "expected `new_edges.add(keyify(new_edge))`")
